@@ -10,7 +10,7 @@ from pyvc.contract import ClassDecl, Contract, Logic, Lemma, C, Loop, Ghost
 F = "task_identifier.py"
 
 CLASSES = [
-    ClassDecl("TaskIdentifier", file=F, fields={"_path": "Val[Path]", "_name": "str"}),
+    ClassDecl("TaskIdentifier", file=F, value_sort="TId", fields={"_path": "Val[Path]", "_name": "str"}),
     ClassDecl("ReMatch"),
     ClassDecl("InvalidTaskIdentifier", exception=True, bases=["ConductorError"]),
 ]
@@ -74,7 +74,7 @@ CONTRACTS = [
              ensures=[C("iff_name_grammar", "result == in_re(candidate, 'name')", "C20", "C15")]),
 
     Contract(F + "::TaskIdentifier.from_str", params={"candidate": "str", "require_prefix": "bool"},
-             returns="TaskIdentifier", props=["C20"], fresh_result=True,
+             returns="TaskIdentifier", props=["C20"],
              ensures=[C("accepted_only_if_in_grammar", "in_re(candidate, 'ident')"),
                       C("prefix_required", "implies(require_prefix, candidate.startswith('//'))"),
                       C("name_is_suffix_after_colon", "candidate.endswith(':' + result._name)"),
@@ -84,7 +84,7 @@ CONTRACTS = [
                    "not in_re(candidate, 'ident') or (require_prefix and not candidate.startswith('//'))")]}),
 
     Contract(F + "::TaskIdentifier.from_relative_str", params={"candidate": "str", "rel_cond_file_dir": "Val[Path]"},
-             returns="TaskIdentifier", props=["C20"], fresh_result=True,
+             returns="TaskIdentifier", props=["C20"],
              ensures=[C("accepted_only_if_in_grammar", "in_re(candidate, 'rel')"),
                       C("resolves_against_listing_directory", "result._path == rel_cond_file_dir"),
                       C("name_is_rest", "candidate == ':' + result._name")],
@@ -97,6 +97,12 @@ CONTRACTS = [
 
     Contract(F + "::TaskIdentifier.__repr__", returns="str", props=["C20"],
              ensures=[C("canonical_form", "result == '//' + join('/', Path_parts(self._path)) + ':' + self._name")]),
+
+    Contract(F + "::TaskIdentifier.__eq__", params={"other": "TaskIdentifier"}, returns="bool", props=["C20"],
+             ensures=[C("structural_equality", "result == (self._path == other._path and self._name == other._name)"),
+                      C("same_as_value_identity", "result == (self == other)")]),
+    Contract(F + "::TaskIdentifier.__hash__", returns="int", props=["C20"],
+             ensures=[C("hash_of_canonical_form", "result == hash('//' + join('/', Path_parts(self._path)) + ':' + self._name)")]),
 
     Contract("filename.py::task_output_dir", params={"task_identifier": "TaskIdentifier", "version": "Opt[Version]"},
              returns="str", props=["C20", "C08", "C13"],
